@@ -1,5 +1,6 @@
-//! C18: generic instantiation. Tie: inferred type of `local r = f(x)` for the template family vs the
-//! Lean model (`ty.inst`); oracle: the expected substitution computed independently in the harness.
+//! C18: generic instantiation. Tie: inferred type of `local r = f(args…)` vs the Lean model (`ty.inst`);
+//! oracle: the declared return type with the argument components substituted (literal widening), read
+//! through the real annotation analysis — independent of the model.
 use crate::genty::{G, gen_atom};
 use crate::ser::{canon_str, ser};
 use crate::world::World;
@@ -9,42 +10,58 @@ use serde_json::{Value, json};
 use std::collections::HashSet;
 use vh_common::{Args, Report, Rng, hex, run_driver};
 
-/// (name, generic params, parameter types, return type) — `T`, `U` are the template parameters
-pub const TEMPLATES: &[(&str, &str, &[&str], &str)] = &[
-    ("identity", "T", &["T"], "T"),
-    ("array_elem", "T", &["T[]"], "T"),
-    ("array_of", "T", &["T"], "T[]"),
-    ("pair", "T, U", &["T", "U"], "table<T, U>"),
-    ("table_value", "K, V", &["table<K, V>"], "V"),
-    ("table_key", "K, V", &["table<K, V>"], "K"),
-    ("optional", "T", &["T?"], "T"),
-    ("fun_ret", "T", &["fun(): T"], "T"),
-    ("nested", "T", &["T[][]"], "T[]"),
+/// one-variable patterns: (annotation text, model syntax), `{}` = the template parameter / its binding
+pub const PARAM_PATS: &[(&str, &str)] = &[
+    ("{}", "{}"),
+    ("{}", "{}"),
+    ("{}[]", "(a {})"),
+    ("{}[][]", "(a (a {}))"),
+    ("table<string, {}>", "(g (p string) {})"),
+    ("table<{}, boolean>", "(g {} (p boolean))"),
+    ("[{}, string]", "(t {} (p string))"),
+    ("{x: {}, y: integer}", "(o (78 {}) (79 (p integer)))"),
+    ("fun(a: {}): integer", "(fn1 {} (p integer))"),
+    ("fun(): {}", "(fn {})"),
+    ("{}?", "(u {} (p nil))"),
+    ("table<string, {}[]>", "(g (p string) (a {}))"),
 ];
 
-/// an argument type text that is an instance of the parameter pattern, given the bindings
-fn instance(pattern: &str, binds: &[(&str, String)]) -> String {
-    // replace whole-word template names; patterns only use single capital letters
-    let mut out = String::new();
-    let cs: Vec<char> = pattern.chars().collect();
-    let mut i = 0;
-    while i < cs.len() {
-        let c = cs[i];
-        let prev_alpha = i > 0 && (cs[i - 1].is_alphanumeric() || cs[i - 1] == '_');
-        let next_alpha = i + 1 < cs.len() && (cs[i + 1].is_alphanumeric() || cs[i + 1] == '_');
-        if c.is_ascii_uppercase() && !prev_alpha && !next_alpha {
-            if let Some((_, t)) = binds.iter().find(|(n, _)| n.chars().next() == Some(c)) {
-                out.push('(');
-                out.push_str(t);
-                out.push(')');
-                i += 1;
-                continue;
-            }
-        }
-        out.push(c);
-        i += 1;
+pub const RET_PATS: &[(&str, &str)] = &[
+    ("{}", "{}"),
+    ("{}[]", "(a {})"),
+    ("table<string, {}>", "(g (p string) {})"),
+    ("table<{}, boolean>", "(g {} (p boolean))"),
+    ("table<integer, {}>", "(g (p integer) {})"),
+    ("table<string, {}>[]", "(a (g (p string) {}))"),
+    ("table<string, {}[]>", "(g (p string) (a {}))"),
+    ("[{}, string]", "(t {} (p string))"),
+    ("{x: {}, y: integer}", "(o (78 {}) (79 (p integer)))"),
+    ("fun(a: {}): integer", "(fn1 {} (p integer))"),
+    ("fun(): {}", "(fn {})"),
+];
+
+/// returns over several parameters: (text, model), `{0}` `{1}` `{2}`
+pub const MULTI_RET: &[(usize, &str, &str)] = &[
+    (2, "table<{0}, {1}>", "(g {0} {1})"),
+    (2, "[{0}, {1}]", "(t {0} {1})"),
+    (2, "{x: {0}, y: {1}}", "(o (78 {0}) (79 {1}))"),
+    (2, "table<{1}, {0}[]>", "(g {1} (a {0}))"),
+    (3, "[{0}, {1}, {2}]", "(t {0} {1} {2})"),
+    (3, "table<{2}, [{0}, {1}]>", "(g {2} (t {0} {1}))"),
+];
+
+const VARS: &[&str] = &["T", "U", "V"];
+
+fn fill1(tpl: &str, x: &str) -> String {
+    tpl.replace("{}", x)
+}
+
+fn filln(tpl: &str, xs: &[String]) -> String {
+    let mut s = tpl.to_string();
+    for (i, x) in xs.iter().enumerate() {
+        s = s.replace(&format!("{{{i}}}"), x);
     }
-    out
+    s
 }
 
 pub fn gen_arg(rng: &mut Rng, names: &[String], depth: usize) -> G {
@@ -81,53 +98,184 @@ fn last_local_type(w: &mut World, code: &str) -> Option<LuaType> {
     Some(info.typ)
 }
 
-pub fn call_program(tpl: &(&str, &str, &[&str], &str), args: &[String], literal_arg: Option<&str>) -> String {
-    let (_, generics, params, ret) = tpl;
-    let mut s = String::new();
-    s.push_str(&format!("---@generic {generics}\n"));
-    for (i, p) in params.iter().enumerate() {
-        s.push_str(&format!("---@param a{i} {p}\n"));
+/// literal widening of a binding, decided on the real type of the binding's annotation
+fn widen_text(w: &mut World, text: &str) -> String {
+    match w.ty(text) {
+        Some(LuaType::DocStringConst(_)) | Some(LuaType::StringConst(_)) => "string".into(),
+        Some(LuaType::DocIntegerConst(_)) | Some(LuaType::IntegerConst(_)) => "integer".into(),
+        Some(LuaType::DocBooleanConst(_)) | Some(LuaType::BooleanConst(_)) => "boolean".into(),
+        Some(LuaType::FloatConst(_)) => "number".into(),
+        _ => text.to_string(),
     }
-    s.push_str(&format!("---@return {ret}\n"));
-    let names: Vec<String> = (0..params.len()).map(|i| format!("a{i}")).collect();
-    s.push_str(&format!("local function f({}) end\n", names.join(", ")));
-    let mut call_args = Vec::new();
-    for (i, a) in args.iter().enumerate() {
-        s.push_str(&format!("---@type {a}\nlocal x{i}\n"));
+}
+
+struct Case {
+    program: String,
+    shape: String,
+    /// model syntax of the parameters / return
+    params_s: Vec<String>,
+    ret_s: String,
+    /// argument expressions: ("one", [type text]) | ("multi", texts) | ("va", [text]) | ("lit", [expr])
+    args: Vec<(&'static str, Vec<String>)>,
+    /// expected result as an annotation text (bindings substituted, widened); None = no oracle
+    expected: Option<String>,
+    bindings: Vec<String>,
+}
+
+fn gen_case(rng: &mut Rng, w: &mut World, names: &[String]) -> Case {
+    let g = match rng.below(10) { 0..=4 => 1, 5..=7 => 2, _ => 3 };
+    // parameters: one per template parameter
+    let mut param_texts = Vec::new();
+    let mut params_s = Vec::new();
+    let mut pats = Vec::new();
+    for i in 0..g {
+        let (pt, ps) = *rng.pick(PARAM_PATS);
+        param_texts.push(fill1(pt, VARS[i]));
+        params_s.push(fill1(ps, &format!("(v {i})")));
+        pats.push(pt);
+    }
+    // return
+    let (ret_text, ret_s, ret_tpl): (String, String, String);
+    let candidates: Vec<&(usize, &str, &str)> = MULTI_RET.iter().filter(|m| m.0 == g).collect();
+    if g >= 2 && !candidates.is_empty() && rng.chance(2, 3) {
+        let m = rng.pick(&candidates);
+        let vs: Vec<String> = (0..g).map(|i| VARS[i].to_string()).collect();
+        let ms: Vec<String> = (0..g).map(|i| format!("(v {i})")).collect();
+        ret_text = filln(m.1, &vs);
+        ret_s = filln(m.2, &ms);
+        ret_tpl = m.1.to_string();
+    } else {
+        let (rt, rs) = *rng.pick(RET_PATS);
+        let k = rng.below(g);
+        ret_text = fill1(rt, VARS[k]);
+        ret_s = fill1(rs, &format!("(v {k})"));
+        ret_tpl = rt.replace("{}", &format!("{{{k}}}"));
+    }
+    // bindings and instances
+    let binds: Vec<String> = (0..g).map(|_| gen_arg(rng, names, 2).text()).collect();
+    let insts: Vec<String> = (0..g).map(|i| fill1(pats[i], &format!("({})", binds[i]))).collect();
+
+    let mut prog = String::new();
+    prog.push_str(&format!("---@generic {}\n", VARS[..g].join(", ")));
+    for (i, p) in param_texts.iter().enumerate() {
+        prog.push_str(&format!("---@param a{i} {p}\n"));
+    }
+    prog.push_str(&format!("---@return {ret_text}\n"));
+    prog.push_str(&format!("local function f({}) end\n", (0..g).map(|i| format!("a{i}")).collect::<Vec<_>>().join(", ")));
+
+    // argument expressions
+    let mut args: Vec<(&'static str, Vec<String>)> = Vec::new();
+    let mut call_args: Vec<String> = Vec::new();
+    let mut eff_binds = binds.clone();
+    let shape_pick = rng.below(10);
+    let mut shape = String::from("plain");
+    let mut wrap_vararg: Option<String> = None;
+    // where the multi-value call starts (None = no call argument)
+    let multi_from: Option<usize> = match shape_pick {
+        0..=2 => Some(rng.below(g)),      // last argument is a call covering parameters multi_from..
+        _ => None,
+    };
+    let not_last_call = shape_pick == 3 && g >= 2; // first argument is a call returning 2 values, not last
+    let use_vararg = shape_pick == 4 && pats.iter().all(|p| *p == "{}");
+    for i in 0..g {
+        if let Some(from) = multi_from
+            && i >= from
+        {
+            if i == from {
+                let extra = rng.below(2);
+                // a function type in a return list must be parenthesised: `fun(): A, B` is one function
+                // returning two values
+                let mut vals: Vec<String> =
+                    insts[from..].iter().map(|t| if t.starts_with("fun(") { format!("({t})") } else { t.clone() }).collect();
+                for _ in 0..extra {
+                    vals.push("thread".into());
+                }
+                prog.push_str(&format!("---@return {}\nlocal function m() end\n", vals.join(", ")));
+                call_args.push("m()".into());
+                args.push(("multi", vals));
+                shape = format!("multi-last(from={from},values={})", g - from + extra);
+            }
+            continue;
+        }
+        if not_last_call && i == 0 {
+            let v0 = if insts[0].starts_with("fun(") { format!("({})", insts[0]) } else { insts[0].clone() };
+            prog.push_str(&format!("---@return {v0}, thread\nlocal function m2() end\n"));
+            call_args.push("m2()".into());
+            args.push(("multi", vec![v0, "thread".into()]));
+            shape = "multi-not-last".into();
+            continue;
+        }
+        if use_vararg && i == g - 1 {
+            // the remaining parameter is fed from `...`
+            wrap_vararg = Some(insts[i].clone());
+            call_args.push("...".into());
+            args.push(("va", vec![insts[i].clone()]));
+            shape = "vararg-last".into();
+            continue;
+        }
+        if pats[i] == "{}" && rng.chance(1, 4) {
+            // literal expression, directly or through a local
+            let (lit, ty) = *rng.pick(&[("1", "1"), ("\"s\"", "\"s\""), ("true", "true")]);
+            eff_binds[i] = ty.to_string();
+            if rng.chance(1, 2) {
+                prog.push_str(&format!("local l{i} = {lit}\n"));
+                call_args.push(format!("l{i}"));
+                shape.push_str("+literal-local");
+            } else {
+                call_args.push(lit.to_string());
+                shape.push_str("+literal");
+            }
+            args.push(("lit", vec![lit.to_string()]));
+            continue;
+        }
+        prog.push_str(&format!("---@type {}\nlocal x{i}\n", insts[i]));
         call_args.push(format!("x{i}"));
+        args.push(("one", vec![insts[i].clone()]));
     }
-    if let Some(l) = literal_arg {
-        call_args = vec![l.to_string()];
+    if let Some(vt) = &wrap_vararg {
+        prog.push_str(&format!("---@param ... {vt}\nlocal function wrap(...)\n  local r = f({})\nend\n", call_args.join(", ")));
+    } else {
+        prog.push_str(&format!("local r = f({})\n", call_args.join(", ")));
     }
-    s.push_str(&format!("local r = f({})\n", call_args.join(", ")));
-    s
+    let widened: Vec<String> = eff_binds.iter().map(|b| format!("({})", widen_text(w, b))).collect();
+    let expected = Some(filln(&ret_tpl, &widened));
+    Case { program: prog, shape, params_s, ret_s, args, expected, bindings: eff_binds }
 }
 
 pub fn run(args: &Args, report: &mut Report) {
     let mut rng = Rng::new(args.seed);
     crate::ser::FN_STRUCT.store(true, std::sync::atomic::Ordering::Relaxed);
-    let n = if args.thorough() { 20000 } else { 1500 };
-    report.rule = "calls `local r = f(x…)` of generic functions from the template family (identity, T[] -> T, T -> T[], pair -> table<T,U>, table<K,V> -> V / K, T? -> T, fun(): T -> T, T[][] -> T[]) with argument types that are instances of the parameter patterns for generated bindings (atoms, literals, unions, arrays, tables, class references) and with literal expressions; non-trivial: some binding is not a basic kind; distinct by (template, bindings)".into();
+    let n = if args.thorough() { 30000 } else { 2500 };
+    report.rule = "calls `local r = f(args…)` of generated generic functions: 1-3 template parameters, one parameter per template parameter with a pattern from {T, T[], T[][], table<string,T>, table<T,boolean>, [T,string], {x:T,y:integer}, fun(a:T):integer, fun():T, T?, table<string,T[]>}, return type from the same containers (partially concrete slots) or a multi-parameter container (table<T,U>, [T,U], {x:T,y:U}, table<U,T[]>, [T,U,V], table<V,[T,U]>); arguments are instances of the parameter patterns for generated bindings, passed as typed locals, literal expressions (directly / through a local), a call returning 1-4 values as the last argument starting at any parameter position, a call returning 2 values as a non-last argument, or `...`. Non-trivial: some binding is not a basic kind or the call uses a multi-value argument; distinct by (program)".into();
     let decls = "---@class A\n---@class B: A\n---@class C\n";
     let mut w = World::from_text(decls, vec!["A".into(), "B".into(), "C".into()], vec![]);
     let names: Vec<String> = w.classes.clone();
     let mut requests = Vec::new();
     let mut pending: Vec<(Value, String)> = Vec::new();
     let mut seen = HashSet::new();
-    let literals = ["1", "\"s\"", "true", "1.5", "{}", "nil"];
-    for case in 0..n {
-        let tpl = rng.pick(TEMPLATES);
-        let (name, generics, params, ret) = tpl;
-        let gnames: Vec<&str> = generics.split(", ").collect();
-        let use_literal = params.len() == 1 && params[0] == "T" && rng.chance(1, 5);
-        let binds_g: Vec<(&str, G)> = gnames.iter().map(|g| (*g, gen_arg(&mut rng, &names, 2))).collect();
-        let binds: Vec<(&str, String)> = binds_g.iter().map(|(g, t)| (*g, t.text())).collect();
-        let arg_texts: Vec<String> = params.iter().map(|p| instance(p, &binds)).collect();
-        let lit = if use_literal { Some(*rng.pick(&literals)) } else { None };
-        let code = call_program(tpl, &arg_texts, lit);
-        let input = json!({"template": name, "bindings": binds.iter().map(|(g, t)| json!([g, t])).collect::<Vec<_>>(), "literal": lit, "program": code});
+    let mut cases: Vec<Case> = Vec::new();
+    if let Some(p) = &args.replay {
+        let v: Value = serde_json::from_str(&std::fs::read_to_string(p).expect("replay")).expect("json");
+        let prog = v["input"]["program"].as_str().unwrap_or("").to_string();
+        let r = last_local_type(&mut w, &prog).and_then(|t| ser(&t, true).ok());
         report.evaluations += 1;
-        let r = vh_common::catch(std::panic::AssertUnwindSafe(|| last_local_type(&mut w, &code)));
+        report.notes.push(format!("replayed program infers {r:?}; expected {}", v["input"]["expected"]));
+        if let (Some(r), Some(e)) = (r, v["input"]["expected"].as_str()) {
+            if let Some(exp) = w.ty(e).and_then(|t| ser(&t, true).ok())
+                && canon_str(&exp, true) != canon_str(&r, true)
+            {
+                report.oracle_failure(json!({"input": v["input"], "what": format!("inferred {r}, expected {exp}"), "class": null}));
+            }
+        }
+        return;
+    }
+    for _ in 0..n {
+        cases.push(gen_case(&mut rng, &mut w, &names));
+    }
+    for (k, c) in cases.iter().enumerate() {
+        let input = json!({"program": c.program, "shape": c.shape, "bindings": c.bindings, "expected": c.expected});
+        report.evaluations += 1;
+        let r = vh_common::catch(std::panic::AssertUnwindSafe(|| last_local_type(&mut w, &c.program)));
         let real = match r {
             Ok(Some(t)) => t,
             Ok(None) => {
@@ -139,66 +287,75 @@ pub fn run(args: &Args, report: &mut Report) {
                 continue;
             }
         };
-        let Ok(real_s) = ser(&real, true) else {
-            report.count("result_outside_fragment");
-            continue;
-        };
-        // the real types of the arguments and of the declared return type's instance
-        let mut arg_sers = Vec::new();
-        let mut ok = true;
-        if let Some(l) = lit {
-            match w.expr_ty(l).and_then(|t| ser(&t, true).ok()) {
-                Some(s) => arg_sers.push(s),
-                None => ok = false,
+        let real_s = match ser(&real, true) {
+            Ok(s) => s,
+            Err(kind) => {
+                report.count(&format!("result_outside_fragment:{kind}"));
+                if kind == "tpl" {
+                    // an uninstantiated template parameter in the inferred type is a failure by itself
+                    push_failure(report, json!({"input": input, "what": format!("the inferred type still contains a template parameter: {:?} (expected `{}`)", real, c.expected.clone().unwrap_or_default()), "class": null}));
+                }
+                continue;
             }
-        } else {
-            for a in &arg_texts {
-                match w.ty(a).and_then(|t| ser(&t, true).ok()) {
-                    Some(s) => arg_sers.push(s),
+        };
+        report.count(&format!("shape:{}", c.shape.split('(').next().unwrap_or("")));
+        if k < 10 {
+            report.sample(json!({"program": c.program, "result": real_s}));
+        }
+        // oracle
+        if let Some(e) = &c.expected {
+            match w.ty(e).and_then(|t| ser(&t, true).ok()) {
+                Some(exp) => {
+                    if canon_str(&exp, true) != canon_str(&real_s, true) {
+                        let class: Option<&str> = None;
+                        push_failure(report, json!({"input": input, "what": format!("inferred {real_s}, expected {exp} (= `{e}`: the declared return type with the argument components substituted)"), "class": class}));
+                    } else {
+                        report.count("oracle_agree");
+                    }
+                }
+                None => report.count("oracle_expected_outside_fragment"),
+            }
+        }
+        if seen.insert(c.program.clone()) && (c.shape != "plain" || c.bindings.iter().any(|b| b.len() > 8)) {
+            report.distinct_nontrivial += 1;
+        }
+        // tie
+        let mut arg_sx: Vec<String> = Vec::new();
+        let mut ok = true;
+        for (kind, texts) in &c.args {
+            let mut sers = Vec::new();
+            for t in texts {
+                let ty = if *kind == "lit" { w.expr_ty(t) } else { w.ty(t) };
+                match ty.and_then(|x| ser(&x, true).ok()) {
+                    Some(s) => sers.push(s),
                     None => ok = false,
                 }
             }
+            if !ok {
+                break;
+            }
+            arg_sx.push(match *kind {
+                "multi" => format!("(m {})", sers.join(" ")),
+                "va" => format!("(va {})", sers[0]),
+                _ => sers[0].clone(),
+            });
         }
         if !ok {
             report.count("argument_outside_fragment");
             continue;
         }
-        report.count(&format!("template_{name}"));
-        if case < 12 {
-            report.sample(json!({"template": name, "args": arg_texts, "literal": lit, "result": real_s}));
-        }
-        // oracle (independent of the model): the declared return type with the bindings substituted,
-        // literals widened, read through the real annotation analysis
-        if lit.is_none() {
-            let widened: Vec<(&str, String)> = binds_g.iter().map(|(g, t)| (*g, widen_text(&mut w, t))).collect();
-            let expect_text = instance(ret, &widened);
-            if let Some(exp) = w.ty(&expect_text).and_then(|t| ser(&t, true).ok()) {
-                if canon_str(&exp, true) != canon_str(&real_s, true) {
-                    let class = classify(name, &binds_g);
-                    report.count(&format!("oracle_class:{}", class.unwrap_or("unclassified")));
-                    push_failure(report, json!({"input": input, "what": format!("`{name}` with {binds:?}: inferred {real_s}, expected the instance {exp} of `{ret}`"), "class": class}));
-                } else {
-                    report.count("oracle_agree");
-                }
-            }
-        }
-        if binds_g.iter().any(|(_, g)| !matches!(g, G::Prim(_))) && seen.insert(format!("{name}{binds:?}{lit:?}")) {
-            report.distinct_nontrivial += 1;
-        }
-        let params_s: Option<Vec<String>> = params.iter().map(|p| pattern_ser(p)).collect();
-        let (Some(params_s), Some(ret_s)) = (params_s, pattern_ser(ret)) else { continue };
         requests.push(format!(
             "ty.inst {} {} {}",
-            hex(&format!("(l {})", params_s.join(" "))),
-            hex(&format!("(l {})", arg_sers.join(" "))),
-            hex(&ret_s)
+            hex(&format!("(l {})", c.params_s.join(" "))),
+            hex(&format!("(l {})", arg_sx.join(" "))),
+            hex(&c.ret_s)
         ));
         pending.push((input, canon_str(&real_s, true)));
     }
     let answers = run_driver(&requests);
     for ((req, (input, real)), a) in requests.iter().zip(pending.iter()).zip(answers.iter()) {
         let body = a.strip_prefix("ok ").unwrap_or(a);
-        if body == "unsupported" {
+        if body == "unsupported" || body == "bad-op" {
             report.count("model_unsupported");
         } else if canon_str(body, true) != *real {
             report.mismatch(json!({"input": input, "request": req, "model": canon_str(body, true), "impl": real, "tie": "correspondence ty.inst (tpl_pattern_match + instantiate vs model)"}));
@@ -206,37 +363,6 @@ pub fn run(args: &Args, report: &mut Report) {
             report.traces_validated += 1;
         }
     }
-}
-
-/// literal widening of a binding: decided on the real type of the binding's annotation (a union of
-/// equal literals is a literal), independent of the model
-fn widen_text(w: &mut World, g: &G) -> String {
-    match w.ty(&g.text()) {
-        Some(LuaType::DocStringConst(_)) | Some(LuaType::StringConst(_)) => "string".into(),
-        Some(LuaType::DocIntegerConst(_)) | Some(LuaType::IntegerConst(_)) => "integer".into(),
-        Some(LuaType::DocBooleanConst(_)) | Some(LuaType::BooleanConst(_)) => "boolean".into(),
-        Some(LuaType::FloatConst(_)) => "number".into(),
-        _ => g.text(),
-    }
-}
-
-/// predicate of known finding C18-optional-param: the parameter pattern is `T?`
-fn classify(name: &str, _binds: &[(&str, G)]) -> Option<&'static str> {
-    if name == "optional" { Some("optional-param-pattern") } else { None }
-}
-
-/// pattern text → model syntax with `(v i)` for template parameters (T,K = 0; U,V = 1)
-pub fn pattern_ser(p: &str) -> Option<String> {
-    Some(match p {
-        "T" | "K" => "(v 0)".into(),
-        "U" | "V" => "(v 1)".into(),
-        "T[]" => "(a (v 0))".into(),
-        "T[][]" => "(a (a (v 0)))".into(),
-        "T?" => "(u (v 0) (p nil))".into(),
-        "table<T, U>" | "table<K, V>" => "(g (v 0) (v 1))".into(),
-        "fun(): T" => "(fn (v 0))".into(),
-        _ => return None,
-    })
 }
 
 /// keep the list of reported failures small per known class so that unclassified ones are never cut off
